@@ -190,7 +190,8 @@ type wgen struct {
 
 func (w *wgen) uuid() ovsdb.UUID {
 	if w.g.Chance(0.2) {
-		return ovsdb.UUID{GoUUID: fmt.Sprintf("row%d", w.g.Intn(4))} // a named uuid
+		// a named uuid: an <id>, letters of either case
+		return ovsdb.UUID{GoUUID: fmt.Sprintf([]string{"row%d", "Row%d", "newPort_%d", "_N%d"}[w.g.Intn(4)], w.g.Intn(4))}
 	}
 	return ovsdb.UUID{GoUUID: gen.UUIDn(w.g.Intn(6))}
 }
